@@ -17,7 +17,7 @@ RULE = ("alias chains over one register: bounded-exhaustive over register sizes 
 ASSUMPTIONS = ["model arithmetic on declarations (vf/meaning.py core_from_sx + Evaluator.elems)",
                "zero steps and out-of-range slices are not generated here (C14)"]
 TIERS = {"quick": {"shards": 8, "budget_s": 120}, "thorough": {"shards": 16, "budget_s": 600}}
-REQUIRE = {"invalid-reference:consumers-observed": 1000, "chain-with-slice-counting-down": 500, "references-checked": 2000, "consumer:resolve_qubit": 2000, "consumer:fill_in_map": 2000,
+REQUIRE = {"consumer:resolution-in-context": 300, "invalid-reference:consumers-observed": 1000, "chain-with-slice-counting-down": 500, "references-checked": 2000, "consumer:resolve_qubit": 2000, "consumer:fill_in_map": 2000,
            "consumer:used_qubits": 2000, "consumer:emulator": 1000, "consumer:pygsti": 500, "style:let": 200, "style:override": 200,
            "style:default": 200, "depth>=2": 500, "position:macro-arg": 200, "position:macro-body": 200, "position:macro-index": 200}
 
@@ -150,7 +150,10 @@ def build_program(n, chain, style, rng, offset=0, ov=None):
         elif pos == "macro-index":
             # the alias is indexed by a macro parameter; the call supplies the index
             mname = "mi%d" % i
-            macros.append(("macro", mname, "k", ("sequential_block", ("gate", "X", ("array_item", final, "k")))))
+            # the parameter may carry the name of a let that a slice bound uses: inside the macro the name means the
+            # parameter, in the alias declarations it still means the let
+            pname = rng.choice(sorted(lets)) if (lets and rng.random() < 0.6) else "k"
+            macros.append(("macro", mname, pname, ("sequential_block", ("gate", "X", ("array_item", final, pname)))))
             sec = [("gate", mname, ref[2])]
         else:
             sname = "s%d" % i
@@ -319,6 +322,43 @@ def judge(case):
                 if len(p) != 2 ** n or abs(p[1 << k] - 1) > 1e-9:
                     fails.append(("emulator-acted-on-wrong-qubit", {"section": i, "expected_int": 1 << k, "argmax": int(np.argmax(p))}))
                     break
+    # (6) resolution in a caller-supplied context: the body statement of an index macro, with the parameter bound to
+    #     the call's value through `context` (resolve_qubit(context) / get_used_qubit_indices(stmt, context=...)) while the
+    #     lets in the alias bounds are still symbolic
+    if not ov:
+        lets_now = {x[1]: x[2] for x in prog[1:] if x[0] == "let"}
+        sections = [x for x in prog[1:] if x[0] not in sx.HEADER and x[0] != "macro"]
+        calls = [x for x in sections if x[0] == "gate" and x[1].startswith("mi")]
+        order = [x for x in sections if x[0] == "gate" and x[1] not in ("prepare_all", "measure_all") or x[0] != "gate"]
+        for call in calls:
+            sec_no = order.index(call)
+            k = ks[sec_no]
+            v = call[2]
+            v = lets_now.get(v, v) if isinstance(v, str) else v
+            m = c.macros.get(call[1])
+            if m is None:
+                continue
+            stm = m.body.statements[0]
+            arg = list(stm.parameters.values())[0]
+            pname = m.parameters[0].name
+            o = lib.outcome(arg.resolve_qubit, {pname: v})
+            info["ctx"] = info.get("ctx", 0) + 1
+            if o[0] != "ok":
+                fails.append(("context-resolution-raised:" + o[1], {"error": o[2], "parameter": pname, "value": v}))
+                break
+            if not o[1][0].fundamental or o[1][1] != k:
+                fails.append(("context-resolution-wrong:resolve_qubit", {"expected": k, "got": (o[1][0].name, o[1][1]), "parameter": pname,
+                                                                          "parameter-named-like-a-let": pname in lets_now}))
+                break
+            o = lib.outcome(lib.used_qubits, stm, {pname: v})
+            if o[0] != "ok":
+                fails.append(("context-resolution-raised:" + o[1], {"error": o[2], "parameter": pname, "value": v}))
+                break
+            got = {a: set(b) for a, b in dict(o[1]).items() if b}
+            if got != {regname: {k}}:
+                fails.append(("context-resolution-wrong:used_qubits", {"expected": {regname: [k]}, "got": got, "parameter": pname,
+                                                                        "parameter-named-like-a-let": pname in lets_now}))
+                break
     # (5) pyGSTi label
     lab = pygsti_label()
     if callable(lab):
@@ -448,6 +488,7 @@ def process(ctx, case, feats):
     rec.count("consumer:used_qubits", info["used"])
     rec.count("consumer:emulator", info["emu"])
     rec.count("consumer:pygsti", info["gsti"])
+    rec.count("consumer:resolution-in-context", info.get("ctx", 0))
     if "gsti_unavailable" in info:
         rec.note("pygsti_unavailable", info["gsti_unavailable"])
     rec.count("style:" + case["style"])
